@@ -251,7 +251,7 @@ class WatchdogMonitor:
                 if not (rb >= self.delay and (self.delay > 0 or cond or rb >= 1)):
                     V.add(n + "/reset-without-timeout", "crg_rst asserted; (enable & reset-mode & timeout) has held for %d cycles, reset_delay=%d"
                           % (rb + int(cond), self.delay), cycle=c, enable=en, reset_mode=rst_mode, timeout=trig, remaining=self.rem)
-            elif rb >= self.delay + 1:
+            elif cond and rb >= self.delay + 1:      # (a feed or disable in this cycle legitimately withdraws the reset request)
                 V.add(n + "/reset-missing", "(enable & reset-mode & timeout) has held for %d cycles, reset_delay=%d, crg_rst low"
                       % (rb, self.delay), cycle=c)
             self.cond_run = rb + 1 if cond else 0
